@@ -220,8 +220,8 @@ RULE_ADDENDA = {
     "C01": "header fields with boundary patterns (all-zero / all-ones xid, secs, flags; op 0/1/2/255); option-area sweep: one option of every length 0..130 and 240..270 next to a message type",
     "C02": "edge-aware numeric fields (0, 1, 0x7f../0x80.., max); byte strings with lengths around 63/64, 127/128/130, 253-257; names of exactly 250..253 octets; special address forms (IPv4-mapped, zero, loopback, link-local, multicast); sub-option codes that collide with top-level codes; decoded-then-edited names (another name, another case, another order, appended) must round-trip",
     "C04": "whole-cookie variants (zero, all ones, byte-swapped, partially zero) on 240-, 300-octet and full packets",
-    "C03": "raw frames swept: IHL 0..15 x 18 frame lengths x 12 total-length values (0, 1, around header and frame length, 0xffff) x 6 UDP-length values; structure-aware malformation: every known DHCPv6 option type with its value cut at every position, lengthened by 1..3 octets and with every inner 16-bit field perturbed (+1, -1, +256, 0xffff) under intact outer framing, alone (ParseOption), in a message, inside an IA_NA and inside a relay message, observers run on every accepted one; every DHCPv4 option that has a typed reader with its value cut at every position in an otherwise valid packet, all observers run",
-    "C05": "every known option type, and every name field over a small alphabet of lengths / pointers / letters in options 24, 39, 56/3, preceded and followed by an option whose code has a non-zero high octet (neighbour independence); no entry point may modify its input (checked on every case of every property); names of dotted length 250..256 and 319 ended by a zero, by the end of the value, by another name or lengthened by a compression pointer, in options 24, 39, 56/3 alone, in a message and inside an IA_NA; same value generators as C02",
+    "C03": "vendor strings for the provisioning extractors: every string literal found in ztpv4 / ztpv6 / netboot sources on this run x 6 separators x 0..6 fields, carried in DHCPv6 options 16, 17 and DHCPv4 options 60, 43, 124, 125; raw frames swept: IHL 0..15 x 18 frame lengths x 12 total-length values (0, 1, around header and frame length, 0xffff) x 6 UDP-length values; structure-aware malformation: every known DHCPv6 option type with its value cut at every position, lengthened by 1..3 octets and with every inner 16-bit field perturbed (+1, -1, +256, 0xffff) under intact outer framing, alone (ParseOption), in a message, inside an IA_NA and inside a relay message, observers run on every accepted one; every DHCPv4 option that has a typed reader with its value cut at every position in an otherwise valid packet, all observers run",
+    "C05": "nesting depth ladder (relay in relay, IA in IA) at depths 1..257 around 8/16/32/64/128/256; every known option type, and every name field over a small alphabet of lengths / pointers / letters in options 24, 39, 56/3, preceded and followed by an option whose code has a non-zero high octet (neighbour independence); no entry point may modify its input (checked on every case of every property); names of dotted length 250..256 and 319 ended by a zero, by the end of the value, by another name or lengthened by a compression pointer, in options 24, 39, 56/3 alone, in a message and inside an IA_NA; same value generators as C02",
     "C06": "text-like values with a tail or head a decoder might trim (runs of NUL, blanks, line ends, dots, slashes); durations dumped exactly (values no 32-bit field can carry never compare equal); known finding F12 input and its non-overflowing neighbour",
     "C07": "independent decoder also compares op/htype/hops/xid/secs/flags, the four addresses, chaddr (16 octets), sname/file and their zero fill; packets built through the typed constructors keep their option values while other packets are built and encoded",
     "C08": "non-canonical DHCPv4 wire inputs (repeated codes, zero-length first instances); two encodings of one value held at once; an earlier output vs a later edit+encoding; outputs of different values tracked across encodings",
@@ -236,7 +236,7 @@ RULE_ADDENDA = {
     "C17": "for every accessor and every length: a right-aligned form (zeros, ff ff, four octets: the IPv4-mapped shape at 16 octets) and a left-aligned form (four octets then zeros); set/get through every typed constructor with full equality and after a wire trip; read-edit-set of parsed search domains; one caller-owned value shared by two packets then updated in one",
     "C18": "two deviations per frame; IP options with total lengths around the header length; bound addresses 0.0.0.0 / 255.255.255.255 / 127.0.0.1; destinations 0.0.0.0 and broadcast",
     "C19": "sequences of three edits on parsed and on constructed values with an encoding after each (a second in-place edit, an edit back to the received names); pointers into the middle of a label (dual readings); in-place edits (element, swap, sort, case only, reslice, append) after ToBytes/Length; names through the DHCPv6 options 24/39/56-3 and DHCPv4 119 must re-encode verbatim",
-    "C20": "every subject generated twice and observed in both orders (encoding first / methods first); label sets with empty and repeated names; messages repeating singleton options; random routes; hardware addresses and names longer than their fields; End/Pad codes as map keys",
+    "C20": "parameter request lists in shapes a helper may special-case (sorted, sorted with a repeated code followed by others, descending, all equal, ascending except the last); every subject generated twice and observed in both orders (encoding first / methods first); label sets with empty and repeated names; messages repeating singleton options; random routes; hardware addresses and names longer than their fields; End/Pad codes as map keys",
 }
 for _k, _v in RULE_ADDENDA.items():
     if _k in PROPS:
